@@ -220,6 +220,7 @@ type VerifRT struct {
 	bad      map[int64]bool
 	removed  []VerifRemoved
 	agg      *vAgg
+	tickers  []*vTicker            // every ticker the instance's flushers have asked for
 	split    map[int]chan struct{} // clients parked between addAndCheck and the send on commander
 }
 
@@ -684,6 +685,7 @@ func VerifRunCase(c VerifCase, factory VerifFactory) (out VerifOut) {
 			id := VerifGoid()
 			rt.mu.Lock()
 			rt.ticker = t
+			rt.tickers = append(rt.tickers, t)
 			rt.goids[id] = true
 			rt.mu.Unlock()
 			return t
@@ -1024,8 +1026,22 @@ func VerifRunCase(c VerifCase, factory VerifFactory) (out VerifOut) {
 		for _, rt := range r.rts {
 			timex.AdvanceFake(time.Duration(rt.in.Interval * 100))
 			tick(rt)
+			// a flusher that runs on an OLD ticker (one that was stopped) gets its ticks too, so that
+			// no goroutine of this case outlives it whatever the code under test does with its tickers
+			rt.mu.Lock()
+			ts := append([]*vTicker(nil), rt.tickers...)
+			rt.mu.Unlock()
+			for _, t := range ts {
+				select {
+				case t.c <- time.Now():
+				default:
+				}
+			}
 		}
 		vQuiesce(5*time.Second, 2)
+		if i >= 12 && released == 0 && left == 0 {
+			break // a flusher that does not quit after a dozen idle rounds will not: leave it
+		}
 	}
 	for _, rt := range r.rts {
 		for _, cl := range rt.clients {
